@@ -99,10 +99,39 @@ def monitor (m : Mon) (op : Op) (impl : String) : Mon × List String :=
   let leader := match op with | .leader l => l | _ => m.leader
   ({ evs := evs, stored := st, leader := leader, insts := insts }, fails0 ++ fails1 ++ fails2)
 
+/-- `n` successive `Alloc` calls on instance `i` (what one AskSplit / AskBatchSplit does): the ids, or none
+    as soon as one of them fails (the ids consumed so far are lost, the state keeps them consumed) -/
+def allocMany (s : St) (i : Nat) : Nat → List Nat → St × Option (List Nat)
+  | 0, acc => (s, some acc.reverse)
+  | n + 1, acc =>
+    match PdModel.IdAlloc.step s (.alloc i .none) with
+    | (s', .id v) => allocMany s' i n (v :: acc)
+    | (s', _) => (s', none)
+
+/-- split handling (cluster_worker.go): 1 region id + one id per peer, `c` times, all from the same allocator;
+    every id in the response is an allocation event for the monitor -/
+def splitStep (d : DState) (i n : Nat) (impl : String) : DState × StepOut :=
+  let (s', ids) := allocMany d.model i n []
+  let modelOut := match ids with
+    | some l => "ok " ++ " ".intercalate (l.map toString)
+    | none => "fail"
+  let (outw, st) := parseImpl impl
+  let (mon', fails) : Mon × List String :=
+    match outw with
+    | "ok" :: vs =>
+      let (m, fs) := vs.foldl (fun (acc : Mon × List String) v =>
+        let (m', f') := monitor acc.1 (.alloc i .none) s!"ok {v} @{st}"
+        (m', acc.2 ++ f')) (d.mon, [])
+      (m, fs ++ (if vs.length = n then [] else [s!"sig=C04.split-response-wrong-id-count want={n} got={vs.length}"]))
+    | _ => monitor d.mon (.alloc i .none) s!"err @{st}"
+  ({ model := s', mon := mon' }, { model := s!"{modelOut} @{s'.bound}", fails := fails })
+
 def step (d : DState) (opLine : String) (impl : String) : DState × StepOut :=
   match words opLine with
   | ["reset"] =>
     ({ model := init PdModel.Generated.IdAlloc.allocStep }, { model := "ok @0" })
+  | ["split", i, p] => splitStep d (natArg i) (1 + natArg p) impl
+  | ["bsplit", i, c, p] => splitStep d (natArg i) (natArg c * (1 + natArg p)) impl
   | ws =>
     match parseOp ws with
     | none => (d, { model := "bad-op @0" })
